@@ -343,5 +343,5 @@ Qed.
 
 (* never_early is not vacuous: a schedule with an expiry inside a critical section on which handlers do run. *)
 Example never_early_nonvacuous :
-  cmp_ok cmp_int /\ lids (run cmp_int witness_resched init) = [0%nat; 1%nat] /\ early_b (run cmp_int witness_resched init) = false.
+  cmp_ok cmp_int /\ lids (run cmp_int witness_resched init) = [0%nat] /\ early_b (run cmp_int witness_resched init) = false.
 Proof. split; [apply cmp_int_ok|]. split; vm_compute; reflexivity. Qed.
